@@ -1,6 +1,6 @@
 import EdpVerif.Impl.Encode
 import EdpVerif.Impl.Decode
-import EdpVerif.Generated.Misc
+import EdpVerif.Generated.MiscC15
 /-
 Model of crates/erltf_serde (ser.rs, de.rs, the `ElixirStruct` derive) over a universe of Rust types.
 
